@@ -33,7 +33,8 @@ type c03nsCase struct {
 	Bits   int              `json:"prefix_bits"`
 	Events []c03Event       `json:"traffic"`
 	Late   bool             `json:"last_reply_late_within_exit_delay"`
-	Rate   string           `json:"rate,omitempty"` // stretches the scan: a long quiet phase before the only reply
+	Rate   string           `json:"rate,omitempty"`                      // stretches the scan: a long quiet phase before the only reply
+	OneCPU bool             `json:"scanner_pinned_to_one_cpu,omitempty"` // a one-vCPU host (taskset -c 0): worker pools sized from the CPU count
 }
 
 const (
@@ -94,6 +95,9 @@ func c03nsRun(c c03nsCase, exitMs int) (*c17Report, []string, error) {
 		"routes": []interface{}{}, "inject": inj, "sx_bin": sx, "sx_args": args, "timeout_s": 40}
 	for k, x := range c03nsExtraScenario {
 		sc[k] = x
+	}
+	if c.OneCPU {
+		sc["cpu_list"] = "0"
 	}
 	raw, _ := json.Marshal(sc)
 	f, err := os.CreateTemp(c08WorkDir(), "c03ns-*.json")
@@ -279,7 +283,7 @@ func c03nsCheck(c c03nsCase) *kit.Verdict {
 func TestC03Netns(t *testing.T) {
 	kit.Run(t, kit.Spec[c03nsCase]{
 		Prop: "C03",
-		Rule: "the REAL sx binary in a fresh network namespace (kernel BPF, real AF_PACKET adapter, TPACKET ring): arp / icmp / udp / tcp syn / tcp fin / tcp --flags over a /28../30 (1..3 port ranges, sometimes 201..230 ranges = several sockets and kernel filters) attached to a veth (Ethernet) or a tun device (raw IP), 1..20 frames injected on the far end of the veth / written into the tun as reactions to the k-th probe: reply-shaped frames and near misses exactly as in TestC03Detection (subnet edges, port edges, flag sets, options, ICMP types, foreign protocols; VLAN-tagged frames are not generated here because the kernel strips the tag before packet sockets see the frame). Oracle: stdout records = one per frame that shape.Classify calls reply-shaped (multiset); a miss is re-decided with a 3 s exit delay (and counts as a violation when a reply to the last probe, inside the 400 ms exit delay, is only reported with the long delay - unless a scheduler-lateness monitor saw the machine stall for 40 ms or more during the run: then the case is discarded); the process must not run shorter than the exit delay. non-trivial: >=1 reply-shaped and >=1 other frame; distinct by case",
+		Rule: "the REAL sx binary in a fresh network namespace (kernel BPF, real AF_PACKET adapter, TPACKET ring): arp / icmp / udp / tcp syn / tcp fin / tcp --flags over a /28../30 (1..3 port ranges, sometimes 201..230 ranges = several sockets and kernel filters) attached to a veth (Ethernet) or a tun device (raw IP), a quarter of the runs with the scanner pinned to one CPU (taskset: a one-vCPU host), 1..20 frames injected on the far end of the veth / written into the tun as reactions to the k-th probe: reply-shaped frames and near misses exactly as in TestC03Detection (subnet edges, port edges, flag sets, options, ICMP types, foreign protocols; VLAN-tagged frames are not generated here because the kernel strips the tag before packet sockets see the frame). Oracle: stdout records = one per frame that shape.Classify calls reply-shaped (multiset); a miss is re-decided with a 3 s exit delay (and counts as a violation when a reply to the last probe, inside the 400 ms exit delay, is only reported with the long delay - unless a scheduler-lateness monitor saw the machine stall for 40 ms or more during the run: then the case is discarded); the process must not run shorter than the exit delay. non-trivial: >=1 reply-shaped and >=1 other frame; distinct by case",
 		Gen: func(t *rapid.T) c03nsCase {
 			c := c03nsCase{Cmd: rapid.SampledFrom([]string{"arp", "icmp", "udp", "tcp", "tcp syn", "tcp fin", "tcp --flags fin,ack"}).Draw(t, "cmd"), Bits: rapid.SampledFrom([]int{28, 29, 30}).Draw(t, "bits")}
 			base := strings.Fields(c.Cmd)[0]
@@ -321,6 +325,7 @@ func TestC03Netns(t *testing.T) {
 				vc.Events[0].AtWrite = total
 				c.Late = true
 			}
+			c.OneCPU = rapid.IntRange(0, 3).Draw(t, "one-cpu") == 0
 			for _, e := range vc.Events {
 				if strings.HasPrefix(e.Note, "vlan") {
 					// the kernel strips 802.1Q tags before packet sockets see the frame (the tag travels in the ring's
@@ -480,5 +485,50 @@ func TestC16NetnsLate(t *testing.T) {
 			return c
 		},
 		Check: c16nsCheck,
+	})
+}
+
+// ---------------------------------------------------------------- C01 on real sockets
+//
+// The same harness without injected traffic, filed under C01: the probes captured on the far end of the veth pair (or read
+// from the tun device) are exactly the specification - on hosts with many CPUs and on a host with one.
+func TestC01Netns(t *testing.T) {
+	kit.Run(t, kit.Spec[c03nsCase]{
+		Prop: "C01",
+		Rule: "the REAL sx binary in a network namespace: arp / icmp / udp / tcp syn / tcp fin over a /27../30 (clear of the interface's own address) with 1..3 port ranges or 201..230 ranges (several chunks), veth or tun, half of the runs with the scanner pinned to one CPU (taskset -c 0: worker pools derived from the CPU count), optionally rate-limited; no traffic injected. Oracle: the multiset of probes captured on the wire = the denotation of the specification (a difference must repeat in three runs). non-trivial: always; distinct by case",
+		Gen: func(t *rapid.T) c03nsCase {
+			c := c03nsCase{Cmd: rapid.SampledFrom([]string{"arp", "icmp", "udp", "tcp syn", "tcp fin"}).Draw(t, "cmd"), Bits: rapid.IntRange(27, 30).Draw(t, "bits")}
+			c.Tun = c.Cmd != "arp" && rapid.Bool().Draw(t, "tun")
+			if strings.HasPrefix(c.Cmd, "tcp") || c.Cmd == "udp" {
+				n := rapid.SampledFrom([]int{1, 2, 3, 201, 230}).Draw(t, "nranges")
+				if n > 3 {
+					c.Bits = 30
+				}
+				start := rapid.IntRange(1, 60000).Draw(t, "p0")
+				for i := 0; i < n; i++ {
+					c.Ports = append(c.Ports, gram.PortRange{Start: uint16(start + 3*i), End: uint16(start + 3*i + i%2)})
+				}
+			}
+			c.OneCPU = rapid.Bool().Draw(t, "one-cpu")
+			c.Rate = rapid.SampledFrom([]string{"", "", "2000/s"}).Draw(t, "rate")
+			return c
+		},
+		Check: func(c c03nsCase) *kit.Verdict {
+			v := c03nsCheck(c)
+			for try := 0; try < 2 && v.Err != nil; try++ {
+				// whatever sx does wrong here it does every time: a difference that does not repeat is an artefact of the
+				// capture on a saturated machine (seen once: a whole run's frames missing, not reproducible)
+				if again := c03nsCheck(c); again.Err == nil {
+					return &kit.Verdict{Inconclusive: true}
+				}
+			}
+			if v.Err == nil && !v.Inconclusive {
+				v.NonTrivial = true
+				if c.OneCPU {
+					v.Label("one-cpu")
+				}
+			}
+			return v
+		},
 	})
 }
